@@ -1,5 +1,5 @@
 """Properties decided in the shape lab: C05 (and the lab stages of C03/C14/C15)."""
-import os, json, glob
+import os, json, glob, subprocess
 import lab
 
 
@@ -391,4 +391,197 @@ def register(PROPS):
              "embedded struct. Oracle: decorated program generates deterministically and compiles; for up to 60 structurally distinct records x 3 workloads the bytes written are identical to the base's; "
              "reading the decorated file into fresh structs gives the written values and zero excluded fields (dash-tagged exported fields were filled with junk before Add). evaluations = records judged; "
              "non-trivial = pair whose decoration is inside a nested/repeated group, of composite type, or an embedded run not at the start; distinct by pair.",
+    )
+
+
+# ---------------------------------------------------------------------------
+# C15: a struct regenerated from a file reads that file back faithfully (two-stage pipeline)
+
+C15_PRIMS = ["int32", "string", "bool", "int64", "float64", "float32"]
+
+
+def c15_shapes(tier, seed):
+    """non-repeated shapes: leaves {r,o} of the six signed/float/bool/string types, groups {r,o} to depth 3."""
+    rnd = random.Random(7919 * seed + (3 if tier == "thorough" else 1))
+    L = lambda r: ("leaf", r)
+    G = lambda r, *f: ("group", r, list(f))
+    fixed = [
+        [L("r"), L("o")],
+        [L("r"), G("r", L("r"), L("o")), L("o")],
+        [G("o", L("r"), L("o")), L("r")],
+        [L("r"), G("r", L("r"), G("r", L("r"), L("o")), L("o")), L("r")],
+        [G("o", G("o", L("o"), L("r")), L("r")), L("o")],
+        [G("r", G("o", G("r", L("r")))), L("r")],
+        [L("o"), G("o", L("o"), G("r", L("o"), G("o", L("r"), L("o")))), G("r", L("r"))],
+    ]
+
+    def rand_fields(depth, maxf):
+        n = rnd.randint(1, maxf)
+        out = []
+        for _ in range(n):
+            if depth < 3 and rnd.random() < 0.4:
+                out.append(G(rnd.choice("ro"), *rand_fields(depth + 1, 3)))
+            else:
+                out.append(L(rnd.choice("ro")))
+        return out
+    n = 400 if tier == "thorough" else 32
+    shapes = list(fixed)
+    while len(shapes) < n:
+        shapes.append(rand_fields(1, 4))
+    return shapes[:n]
+
+
+def c15_prepare(D, pid, cfg, W, tier, replay):
+    """stage A: source programs; they write files into W.dir/c15 when TestC15Write runs (driven from c15_mid)."""
+    seed = int(os.environ.get("VERIF_SEED", "1") or 1)
+    W.replay_pkgs = {}
+    shapes = []
+    if replay:
+        c = json.load(open(os.path.abspath(replay)))["case"]
+        shapes = [("s0000", c["fields"])]
+    else:
+        for i, p in enumerate(sorted(glob.glob(os.path.join(D.VERIF, "replays", pid, "*.json")))):
+            try:
+                c = json.load(open(p))["case"]
+                shapes.append(("r%04d" % i, c["fields"]))
+            except Exception:
+                pass
+        for i, f in enumerate(c15_shapes(tier, seed)):
+            shapes.append(("s%04d" % i, f))
+    W.c15 = []
+    items = []
+    for name, f in shapes:
+        f = tuplify(f)
+        items.append((name, f, dict(tag_all=True, prims=C15_PRIMS)))
+    res = lab.build_lab(W, items, determinism=False)
+    for (name, f, kw), r in zip(items, res):
+        W.c15.append(dict(name=name, fields=f, res=r, typed=lab.typed_notation(f, prims=C15_PRIMS), cols=lab.column_paths(f, prims=C15_PRIMS, tag_all=True)))
+    return ["lab/" + c["name"] for c in W.c15 if c["res"]["ok"]]
+
+
+def tuplify(f):
+    out = []
+    for x in f:
+        if x[0] == "leaf":
+            out.append(tuple(x))
+        elif x[0] == "group":
+            out.append(("group", x[1], tuplify(x[2])) + tuple(x[3:]))
+        else:
+            out.append(tuple(x))
+    return out
+
+
+def c15_mid(D, pid, cfg, W, tier, env):
+    """between stage A (write files) and stage B (read them with regenerated code): run parquetgen -parquet per file, build the regenerated packages, rebuild the test binary."""
+    import props as P
+    outdir = os.path.join(W.dir, "c15")
+    pg = os.path.join(W.bin, "parquetgen")
+    regen = []
+    W.c15_regen_fail = []
+    for c in W.c15:
+        if not c["res"]["ok"]:
+            continue
+        f = os.path.join(outdir, c["name"] + ".parquet")
+        if not os.path.exists(f):
+            continue
+        name = "g" + c["name"][1:] if c["name"][0] == "s" else "h" + c["name"][1:]
+        d = os.path.join(W.h, "lab", name)
+        os.makedirs(d, exist_ok=True)
+        try:
+            p = subprocess.run([pg, "-parquet", f, "-type", "Rec", "-package", name, "-struct-output", "generated_struct.go", "-output", "parquet.go"], cwd=d,
+                               stdout=subprocess.PIPE, stderr=subprocess.STDOUT, text=True, timeout=120, errors="replace")
+            rc, out = p.returncode, p.stdout
+        except subprocess.TimeoutExpired:
+            rc, out = -9, "timeout"
+        c["regen"] = name
+        if rc != 0 or not os.path.exists(os.path.join(d, "parquet.go")):
+            c["regen_cls"] = "regen-error"
+            c["regen_log"] = "\n".join([l for l in out.splitlines() if l.strip()][:6])[:800]
+            shutil_rm(d)
+            continue
+        tmpl = open(os.path.join(W.h, "fixtures", "adapter.go.tmpl")).read()
+        open(os.path.join(d, "adapter.go"), "w").write(tmpl.replace("PKGNAME", name).replace("FIXNAME", name))
+        c["regen_cls"] = ""
+        regen.append(c)
+    bad = lab.build_all(W, [c["regen"] for c in regen])
+    if "_other" in bad:
+        raise RuntimeError("go build ./lab/... failed outside lab packages:\n" + bad["_other"][:2000])
+    pkgs = ["lab/" + c["name"] for c in W.c15 if c["res"]["ok"]]
+    for c in regen:
+        if c["regen"] in bad:
+            c["regen_cls"] = "regen-compile-error"
+            c["regen_log"] = "\n".join([l for l in bad[c["regen"]].splitlines() if l.strip()][:4])[:800]
+            c["regen_src"] = open(os.path.join(W.h, "lab", c["regen"], "generated_struct.go")).read()
+            shutil_rm(os.path.join(W.h, "lab", c["regen"]))
+        else:
+            pkgs.append("lab/" + c["regen"])
+    W.write_imports(pkgs)
+    ok, log = W.build_tests(name="props2.test")
+    if not ok:
+        raise D.Infra("stage B test binary does not build:\n" + log[-3000:])
+
+
+def shutil_rm(d):
+    import shutil
+    shutil.rmtree(d, ignore_errors=True)
+
+
+def c15_key(c):
+    depth = 0
+    d = 0
+    for ch in c["typed"]:
+        if ch == "{":
+            d += 1
+            depth = max(depth, d)
+        elif ch == "}":
+            d -= 1
+    return "C15/%s/group-depth=%d" % (c["regen_cls"], depth - 1)
+
+
+def c15_post(D, pid, cfg, W, tier):
+    import props as P
+    violations, hits, counts, cat = [], {}, {}, []
+    for c in W.c15:
+        if not c["res"]["ok"]:
+            counts["source-unhealthy(discarded)"] = counts.get("source-unhealthy(discarded)", 0) + 1
+            continue
+        cls = c.get("regen_cls", "no-file")
+        counts[cls or "regenerated"] = counts.get(cls or "regenerated", 0) + 1
+        if not cls:
+            continue
+        key = c15_key(c) if cls != "no-file" else "C15/no-file"
+        if is_known(D, pid, key):
+            hits[key] = hits.get(key, 0) + 1
+            continue
+        msg = json.dumps({"property": pid, "key": key, "msg": c.get("regen_log", ""), "case": {"shape": c["typed"], "fields": c["fields"], "regenerated_struct": c.get("regen_src", "")}}, indent=1)
+        violations.append(P.save_failure(pid, msg))
+    cov = {"programs": len(W.c15), "program_build_classes": counts, "known_finding_hits_build": hits}
+    return violations, cov, []
+
+
+def c15_replay_env(W, path):
+    return {"VERIF_REPLAY_PKG": "s0000"}
+
+
+_register_c14 = register
+
+
+def register(PROPS):
+    _register_c14(PROPS)
+    PROPS["C15"] = dict(
+        level="exploration",
+        technique="round trip over programs: struct -> file -> parquetgen -parquet -> regenerated struct and reader -> same file; structural comparison by reflection plus value equality",
+        level_text="Exploration over programs: non-repeated struct shapes (fixed list + seeded random shapes to depth 3) are generated, compiled and used to write files in all three codecs; "
+                   "parquetgen -parquet regenerates a struct and reader from each file; the regenerated type is compared structurally with the source (column paths, nesting, optionality, "
+                   "physical types) and must read the file back with exactly the written values.",
+        level_note="Trusted: the Go compiler, the reflection bridge. Domain as stated by the property: no repeated fields, signed/float/bool/string leaves, unique group names, tags that are identifiers.",
+        fixtures=[],
+        gen_anchored=True,
+        prepare=c15_prepare, post=c15_post, replay_env=c15_replay_env, mid=c15_mid,
+        stages=[dict(test="TestC15Write", kind="enum", quick=1, thorough=1, shards=1), dict(test="TestC15Read", kind="enum", quick=1, thorough=1, bin="props2.test", premid=True, timeout_thorough=3600)],
+        replay="TestReplayC15",
+        rule="programs: 7 fixed shapes + seeded random shapes (32 quick / 400 thorough): 1..4 fields per struct, each a leaf {required, optional} of int32/string/bool/int64/float64/float32 or a group "
+             "{required, optional} nested to depth 3; all columns tagged with unique identifiers. Per program: up to 40 structurally distinct records written with the source type (codec rotates), "
+             "parquetgen -parquet on the file, compile, then: notation and column paths of the regenerated Rec (by reflection) == source; regenerated reader returns the written values. "
+             "evaluations = records compared; non-trivial = shape with a group at depth >= 2 or an optional group; distinct by program.",
     )
